@@ -31,7 +31,7 @@ def complex_class_name(tn):
 
 
 def units(tier):
-    return ['inventory', 'binding', 'content', 'attributes', 'simple', 'schema-copy'] + (['mutants'] if tier == 'thorough' else ['mutants-sample'])
+    return ['inventory', 'binding', 'binding-behaviour', 'content', 'attributes', 'simple', 'schema-copy'] + (['mutants'] if tier == 'thorough' else ['mutants-sample'])
 
 
 # ---------------------------------------------------------------- extraction from the library
@@ -144,6 +144,42 @@ def item_inventory():
     for c in extra:
         cands.append(dict(cls=c, kind='class-without-declaration', witness=dict(item='inventory', cls=c)))
     return cands, n, [dict(item='inventory', names=len(names), classes=len(classes))]
+
+
+def item_binding_behaviour():
+    """the bound type must behave as the declared one at its boundary: classes whose declared type has no character content
+    refuse every non-empty value (also falsy ones), classes with simple content accept a valid value of the declared type and
+    refuse a z3-chosen invalid one"""
+    from .c04 import invalid_values
+    cands, n = [], 0
+    classes = lib.element_classes()
+    for nme in sorted(lib.MODEL['elements']):
+        cn = lib.class_name(nme)
+        if cn not in classes or nme in ('link', 'opus', 'part-link', 'image', 'credit-image'):
+            continue
+        tn, c, st = lib.type_of(nme)
+        kw = {k.replace('-', '_'): v for k, v in lib.required_attrs(nme).items() if ':' not in k}
+        probes = []
+        if st is None:
+            probes = [(v, False) for v in (0, 0.0, False, 'x', 1)]
+        else:
+            good = lib.valid_value(nme)
+            probes = [(good, True)] + [(v, False) for v in invalid_values(st)[:2]]
+        for v, expect in probes:
+            n += 1
+            with lib.Capture():
+                try:
+                    classes[cn](v, **kw)
+                    ok = True
+                except (TypeError, ValueError):
+                    ok = False
+                except Exception:
+                    continue
+            if ok != expect:
+                cands.append(dict(cls=nme, kind='bound-type-%s' % ('accepts-value-the-declared-type-forbids' if ok else 'rejects-valid-value'),
+                                  witness=dict(item='binding-behaviour', name=nme, value=repr(v))))
+                break
+    return cands, n, [dict(item='binding-behaviour', probes=n)]
 
 
 def _lib_binding(cls):
@@ -506,6 +542,8 @@ def run_unit(unit, tier, seed):
         c, n, s = item_inventory()
     elif unit == 'binding':
         c, n, s = item_binding()
+    elif unit == 'binding-behaviour':
+        c, n, s = item_binding_behaviour()
     elif unit == 'content':
         c, n, s = item_content(tier)
     elif unit == 'attributes':
@@ -540,6 +578,8 @@ def replay(c):
         cands, _, _ = item_inventory()
     elif item == 'binding':
         cands, _, _ = item_binding()
+    elif item == 'binding-behaviour':
+        cands, _, _ = item_binding_behaviour()
     elif item == 'content':
         cands, _, _ = item_content('quick')
     elif item == 'attributes':
